@@ -150,14 +150,16 @@ theorem next_hop_action {t : Table} (hw : WF t) (hc : CmdsOK t) (nb : Name → L
 
 /-! ### reaching the target -/
 
-/-- **acquire_reaches**: well-formed table, any neighbour order, cooperative device in level `a`
+/-- **acquire_reaches**: well-formed table inside the domain of the device assumption (`SessPrefixFree`: not used by
+    the proof — it delimits where the model's "prompt ↔ share group" assumption, and with it `Unamb`, describes the
+    real patterns; EOS sessions `abc` / `abcd` are outside, finding F24b), any neighbour order, cooperative device in level `a`
     with a sound belief (`a` itself, or unknown while `a`'s prompt is unambiguous or `a` is the
     target) and unambiguous prompts at the inner levels of the path: `acquire_priv(dest)` returns
     normally, the device is in exactly `dest`, belief = `dest`, the device log grew by exactly the
     navigation log of the path (one bare return per level visited, one table command per edge), after
     `length path ≤ n` get_prompt rounds; nothing else changes. -/
-theorem acquire_reaches {t : Table} (hw : WF t) (hc : CmdsOK t) (c : Cfg) (hnb : NbOK t (c.ord t)) (cfg : MCfg)
-    (hco : Coop t c cfg) {a dest : Name} (ha : a ∈ names t) (hd : dest ∈ names t)
+theorem acquire_reaches {t : Table} (hw : WF t) (_hdom : SessPrefixFree t) (hc : CmdsOK t) (c : Cfg) (hnb : NbOK t (c.ord t))
+    (cfg : MCfg) (hco : Coop t c cfg) {a dest : Name} (ha : a ∈ names t) (hd : dest ∈ names t)
     (w : W MDev) (hwt : w.tbl = t) (hopen : w.ch.closed = false) (hmode : w.ch.dev.mode = a)
     (hidle : w.ch.dev.pending = none)
     (hb : w.belief = a ∨ (w.belief = DUMMY ∧ (a = dest ∨ Unamb t a)))
@@ -192,6 +194,46 @@ theorem acquire_reaches {t : Table} (hw : WF t) (hc : CmdsOK t) (c : Cfg) (hnb :
   rw [this]
   simpa using e
 
+/-! ### all ordered pairs of the five platform tables (static instance of `acquire_reaches`' side conditions) -/
+
+/-- generated obligation: on each platform table, for EVERY ordered pair of levels, the levels strictly inside the
+    path have unambiguous prompts (the levels that share a prompt — IOS-XR / Junos configuration modes — are leaves),
+    and the table lies in the domain of the device assumption -/
+theorem platform_inner_unamb :
+    ∀ t ∈ [iosxe, iosxr, nxos, eos, junos], SessPrefixFree t ∧ ∀ a ∈ names t, ∀ b ∈ names t,
+      ∀ v ∈ changeMap t (neighbours t) a b, v ≠ a → v ≠ b → Unamb t v := by
+  decide +kernel
+
+theorem platform_WF {t : Table} (ht : t ∈ [iosxe, iosxr, nxos, eos, junos]) : WF t ∧ CmdsOK t := by
+  simp only [List.mem_cons, List.not_mem_nil, or_false] at ht
+  rcases ht with rfl | rfl | rfl | rfl | rfl
+  · exact ⟨platform_tables_WF.1, platform_tables_CmdsOK.1⟩
+  · exact ⟨platform_tables_WF.2.1, platform_tables_CmdsOK.2.1⟩
+  · exact ⟨platform_tables_WF.2.2.1, platform_tables_CmdsOK.2.2.1⟩
+  · exact ⟨platform_tables_WF.2.2.2.1, platform_tables_CmdsOK.2.2.2.1⟩
+  · exact ⟨platform_tables_WF.2.2.2.2, platform_tables_CmdsOK.2.2.2.2⟩
+
+/-- **acquire_reaches for every ordered pair of levels of every platform table** (without registered sessions), any
+    neighbour order: cooperative device in level `a`, belief `a` — or unknown while `a`'s prompt is unambiguous or
+    `a` is the target — ⇒ `acquire_priv(dest)` ends exactly in `dest` with exactly the path's navigation log.
+    All side conditions of `acquire_reaches` (WF, CmdsOK, domain, inner levels unambiguous) are discharged statically. -/
+theorem acquire_reaches_platform {t : Table} (ht : t ∈ [iosxe, iosxr, nxos, eos, junos]) (c : Cfg) (hnb : NbOK t (c.ord t))
+    (cfg : MCfg) (hco : Coop t c cfg) {a dest : Name} (ha : a ∈ names t) (hd : dest ∈ names t)
+    (w : W MDev) (hwt : w.tbl = t) (hopen : w.ch.closed = false) (hmode : w.ch.dev.mode = a)
+    (hidle : w.ch.dev.pending = none)
+    (hb : w.belief = a ∨ (w.belief = DUMMY ∧ (a = dest ∨ Unamb t a))) :
+    ∃ w', acquirePriv c (modeDev cfg) w dest = (w', .ok) ∧ w'.ch.dev.mode = dest ∧ w'.belief = dest ∧
+      w'.ch.dev.log = w.ch.dev.log ++ navLog t c.secondary cfg.password (changeMap t (c.ord t) a dest) ∧
+      w'.hazard = w.hazard := by
+  obtain ⟨hw, hc⟩ := platform_WF ht
+  obtain ⟨hdom, hall⟩ := platform_inner_unamb t ht
+  have hin : ∀ v ∈ changeMap t (c.ord t) a dest, v ≠ a → v ≠ dest → Unamb t v := by
+    rw [buildMap_order_independent hw (c.ord t) (neighbours t) hnb (fun _ _ => Iff.rfl) ha hd]
+    exact hall a ha dest hd
+  obtain ⟨w', h1, h2, h3, _, _, h6, _, _, _, _, _, h12⟩ :=
+    acquire_reaches hw hdom hc c hnb cfg hco ha hd w hwt hopen hmode hidle hb hin
+  exact ⟨w', h1, h2, h3, h6, h12⟩
+
 /-! ### the bound, for every device -/
 
 /-- **acquire_bounded**: for an ARBITRARY device (any state space, any reaction to any line: any
@@ -210,6 +252,188 @@ theorem acquire_bounded {σ : Type} (c : Cfg) (d : Dev σ) (w : W σ) (dest : Na
   · obtain ⟨h1, h2, h3, h4, h5⟩ := acquireLoop_bounded c d dest (loopFactor * w.tbl.length + 2) 0 w
       (by unfold maxIter; omega) (by unfold maxIter; rw [Nat.mul_comm]; omega)
     exact ⟨h1, by unfold maxIter at h5; omega, h2, h3, h4⟩
+
+/-! ### the exception class, for every device -/
+
+/-- the outcomes the property allows: return, ScrapliPrivilegeError, ScrapliAuthenticationFailed, ScrapliTimeout —
+    and ScrapliConnectionNotOpened when an earlier timeout already closed the transport -/
+def OutOK (o : Outcome) : Prop := o = .ok ∨ o = .privErr ∨ o = .authFail ∨ o = .timeout ∨ o = .connErr
+
+theorem getPrompt_err {σ : Type} (d : Dev σ) (t : Table) (ch : Chan σ) {e : Outcome} (h : (getPrompt d t ch).2 = .error e) :
+    e = .connErr ∨ e = .timeout := by
+  unfold getPrompt at h
+  split at h <;> simp at h <;> simp [← h]
+
+theorem getPrompt_cls {σ : Type} (d : Dev σ) (t : Table) (ch : Chan σ) {ch' : Chan σ} {cls : List Name}
+    (h : getPrompt d t ch = (ch', .ok cls)) : ∀ v ∈ cls, v ∈ names t := by
+  unfold getPrompt at h
+  split at h
+  · cases h
+  · simp only [Prod.mk.injEq, Except.ok.injEq] at h
+    obtain ⟨_, rfl⟩ := h
+    exact fun v hv => classify_sub hv
+  · cases h
+
+theorem sendInput_err {σ : Type} (d : Dev σ) (t : Table) (ch : Chan σ) (line : Line) {e : Outcome}
+    (h : (sendInput d t ch line).2 = .error e) : e = .connErr ∨ e = .timeout := by
+  unfold sendInput at h
+  split at h <;> simp at h <;> simp [← h]
+
+theorem escalateAuth_class {σ : Type} (c : Cfg) (d : Dev σ) (t : Table) (ch : Chan σ) (l p : Level) :
+    OutOK (escalateAuth c d t ch l p).2 := by
+  unfold escalateAuth escalateSecond OutOK
+  repeat' split
+  all_goals simp
+
+theorem escalate_class {σ : Type} (c : Cfg) (d : Dev σ) (t : Table) (ch : Chan σ) (l : Level)
+    (hp : l.auth = true → (lookup t l.prev).isSome) : OutOK (escalate c d t ch l).2 := by
+  unfold escalate
+  split
+  · split
+    · simp [OutOK]
+    · rename_i e heq
+      have := sendInput_err d t ch l.esc (e := e) (by rw [heq])
+      rcases this with h | h <;> simp [OutOK, h]
+  · rename_i ha
+    have ha' : l.auth = true := by simpa using ha
+    split
+    · rename_i hn; have := hp ha'; rw [hn] at this; cases this
+    · exact escalateAuth_class c d t ch l _
+
+/-- on a well-formed table the next action is always defined (no IndexError on `map[1]`, no KeyError), and an
+    escalation goes to a level whose previous level is the current one -/
+theorem nextAction_defined {t : Table} (hw : WF t) {nb : Name → List Name} (hnb : NbOK t nb) {la : Level} {a dest : Name}
+    (hla : lookup t a = some la) (hd : dest ∈ names t) (hne : la.name ≠ dest) :
+    ∃ act, nextAction t nb la dest = .ok act ∧ act ≠ .noAction ∧ ∀ l, act = .escalate l → l.prev = la.name := by
+  have hname : la.name = a := (lookup_some hla).2
+  have ha : a ∈ names t := lookup_isSome_iff.mp (by rw [hla]; rfl)
+  obtain ⟨h1, h2, _, _⟩ := buildMap_is_path hw nb hnb ha hd
+  rw [← hname] at h1 h2
+  cases hcm : changeMap t nb la.name dest with
+  | nil => rw [hcm] at h1; exact absurd rfl h1.ne_nil
+  | cons a' r1 =>
+    rw [hcm] at h1 h2
+    obtain ⟨r, e⟩ := h1.head
+    cases e
+    cases r1 with
+    | nil =>
+      cases h1 with
+      | single => exact absurd rfl hne
+      | cons _ hp' => exact absurd rfl hp'.ne_nil
+    | cons x rest =>
+      have hx : x ∈ names t := h1.mem_names hw x (by simp)
+      obtain ⟨lx, hlx⟩ := Option.isSome_iff_exists.mp (lookup_isSome_iff.mpr hx)
+      unfold nextAction
+      rw [hcm]
+      simp only [hlx]
+      by_cases hp : lx.prev ≠ la.name
+      · exact ⟨.deescalate la, by simp [hp], by simp, by intro l h; cases h⟩
+      · refine ⟨.escalate lx, by simp [hp], by simp, ?_⟩
+        intro l h; cases h; simpa using hp
+
+/-- `_process_acquire_priv` on a classification that consists of table levels -/
+theorem processAcquire_class {t : Table} (hw : WF t) {nb : Name → List Name} (hnb : NbOK t nb) (belief : Name) {dest : Name}
+    (hd : dest ∈ names t) {cls : List Name} (hcls : ∀ v ∈ cls, v ∈ names t) :
+    (processAcquire t nb belief dest cls).2 = .error .privErr ∨
+    ∃ act, (processAcquire t nb belief dest cls).2 = .ok act ∧ ∀ l, act = .escalate l → (lookup t l.prev).isSome := by
+  unfold processAcquire
+  cases cls with
+  | nil => exact Or.inl rfl
+  | cons c0 rest =>
+    right
+    simp only
+    have hpick : pickCurrent belief dest (c0 :: rest) c0 ∈ names t := by
+      unfold pickCurrent
+      split
+      · rename_i h; exact hcls _ h
+      · split
+        · exact hd
+        · exact hcls c0 (by simp)
+    obtain ⟨cur, hcur⟩ := Option.isSome_iff_exists.mp (lookup_isSome_iff.mpr hpick)
+    simp only [hcur]
+    by_cases hdd : cur.name = dest
+    · simp only [hdd, if_true]; exact ⟨.noAction, rfl, by intro l h; cases h⟩
+    · simp only [hdd, if_false]
+      obtain ⟨act, h1, _, h3⟩ := nextAction_defined hw hnb hcur hd hdd
+      refine ⟨act, h1, ?_⟩
+      intro l hl
+      rw [h3 l hl, (lookup_some hcur).2, hcur]; rfl
+
+theorem acquireIter_class {σ : Type} (c : Cfg) (d : Dev σ) {dest : Name} {w : W σ} (hw : WF w.tbl)
+    (hnb : NbOK w.tbl (c.ord w.tbl)) (hd : dest ∈ names w.tbl) :
+    ∀ o, (acquireIter c d dest w).2 = some o → OutOK o := by
+  intro o ho
+  unfold acquireIter at ho
+  split at ho
+  · rename_i ch e heq
+    simp only [Option.some.injEq] at ho; subst ho
+    rcases getPrompt_err d w.tbl w.ch (e := e) (by rw [heq]) with h | h <;> simp [OutOK, h]
+  · rename_i ch cls heq
+    have hcls : ∀ v ∈ cls, v ∈ names w.tbl := getPrompt_cls d w.tbl w.ch heq
+    have hp := processAcquire_class hw hnb w.belief hd hcls
+    simp only at ho
+    split at ho
+    · rename_i b e heq2
+      simp only [Option.some.injEq] at ho; subst ho
+      rcases hp with h | ⟨act, h, _⟩
+      · rw [heq2] at h; simp at h; simp [OutOK, h]
+      · rw [heq2] at h; cases h
+    · simp only [Option.some.injEq] at ho; subst ho; simp [OutOK]
+    · rename_i b l heq2
+      split at ho
+      · rename_i ch2 e heq3
+        simp only [Option.some.injEq] at ho; subst ho
+        rcases sendInput_err d w.tbl ch l.desc (e := e) (by rw [heq3]) with h | h <;> simp [OutOK, h]
+      · cases ho
+    · rename_i b l heq2
+      have hprev : l.auth = true → (lookup w.tbl l.prev).isSome := by
+        intro _
+        rcases hp with h | ⟨act, h, h2⟩
+        · rw [heq2] at h; cases h
+        · rw [heq2] at h; simp only [Except.ok.injEq] at h; exact h2 l h.symm
+      have hc := escalate_class c d w.tbl ch l hprev
+      split at ho
+      · cases ho
+      · rename_i ch2 e _ heq3
+        simp only [Option.some.injEq] at ho; subst ho
+        rw [heq3] at hc; exact hc
+
+theorem acquireLoop_class {σ : Type} (c : Cfg) (d : Dev σ) {dest : Name} :
+    ∀ (fuel count : Nat) {w : W σ}, WF w.tbl → NbOK w.tbl (c.ord w.tbl) → dest ∈ names w.tbl →
+      (acquireLoop c d dest fuel count w).2 = .outOfFuel ∨ OutOK (acquireLoop c d dest fuel count w).2 := by
+  intro fuel
+  induction fuel with
+  | zero => intro _ _ _ _ _; exact Or.inl rfl
+  | succ fuel ih =>
+    intro count w hw hnb hd
+    have hcl := acquireIter_class c d hw hnb hd
+    obtain ⟨f1, _, _, _⟩ := acquireIter_frame c d dest w
+    unfold acquireLoop
+    split <;> rename_i heq <;> rw [heq] at hcl f1
+    · exact Or.inr (hcl _ rfl)
+    · split
+      · exact Or.inr (by simp [OutOK])
+      · simp only at f1
+        exact ih _ (f1 ▸ hw) (f1 ▸ hnb) (f1 ▸ hd)
+
+/-- **acquire_outcome_class**: on every well-formed table, for EVERY device (any refusals, any prompts, silence), any
+    neighbour order and any driver state, `acquire_priv` returns or ends with a scrapli privilege / authentication /
+    timeout error (or ConnectionNotOpened once a timeout closed the transport) — never IndexError (`map[1]`), KeyError
+    (`privilege_levels[…]`) or anything else, after at most 2n+1 passes (`acquire_bounded`). -/
+theorem acquire_outcome_class {σ : Type} (c : Cfg) (d : Dev σ) (w : W σ) (dest : Name) (hw : WF w.tbl)
+    (hnb : NbOK w.tbl (c.ord w.tbl)) : OutOK (acquirePriv c d w dest).2 := by
+  have hb := (acquire_bounded c d w dest).1
+  unfold acquirePriv at hb ⊢
+  split
+  · simp [OutOK]
+  · rename_i hn
+    have hd : dest ∈ names w.tbl := by
+      apply lookup_isSome_iff.mp
+      cases hl : lookup w.tbl dest <;> simp_all
+    simp only [hn, if_false] at hb
+    rcases acquireLoop_class c d _ 0 hw hnb hd with h | h
+    · exact absurd h hb
+    · exact h
 
 /-- the generated loop factor is the one the property speaks about (`> 2 * len`) -/
 theorem loopFactor_is_two : loopFactor = 2 := by decide
@@ -263,6 +487,15 @@ theorem memo_run_eq (memoised : Bool) : ∀ (ops : List COp) (s s' : CState), Co
     patterns with are exactly re.M | re.I — the assumption under which the model's device shows, in every
     level, a prompt classified as that level's share group -/
 theorem classification_flags : classifyFlags = ["I", "M"] ∧ classifiesPrompts = true := by decide
+
+/-- generated obligation: every platform's on_open and on_close hook (sync and asyncio) FIRST acquires the
+    default desired level — by reading the prompt, not by trusting `_current_priv_level`, which survives
+    close() / a timeout on the connection object.  (Re-opened connections are covered by correspondence and
+    oracle in tools/props/c03.py and c04.py; the history theorems above speak about one session.) -/
+theorem hooks_acquire_first :
+    (∀ h ∈ onOpenHooks, h.head? = some .acquireDefault) ∧ (∀ h ∈ onCloseHooks, h.head? = some .acquireDefault) := by
+  decide
+
 
 /-- generated obligation (since /repo c887324): `send_inputs_interact` stops at `interaction_complete_patterns` -/
 theorem interact_breaks : interactBreaksOnComplete = true := by decide
